@@ -315,7 +315,7 @@ def esrl : P String := do
   let step := fun (v : Verdict) (s : ESRL) (o : Bool × List Rat × List Rat × Nat) =>
     let (ex, pr, po, x) := o
     let v := v.diffIf (ex != s.exploit) s!"{comp} isExploiting model={s.exploit} impl={ex}"
-    let v := v.diffIf (!(closeL (tab n s.prob) pr)) s!"{comp} getActionProbability model={showL (tab n s.prob)} impl={showL pr}"
+    let v := v.diffIf (!(closeL (tab n (s.prob AITB.Gen.C09.esrlProbUsesFind)) pr)) s!"{comp} getActionProbability model={showL (tab n (s.prob AITB.Gen.C09.esrlProbUsesFind))} impl={showL pr}"
     let v := v.diffIf (!(closeL s.policy po)) s!"{comp} getPolicy model={showL s.policy} impl={showL po}"
     if inDoc then coherent v comp n pr po [x] else v
   let s0 := ESRL.init n a N phases window
